@@ -92,7 +92,9 @@ class Matrix3(Matrix):
         array[...,axis3,:] = unit3._values_
 
         # Construct the result
-        result = Matrix3(array, Qube.or_(unit1._mask_, vector2._mask_))
+        # unit2 and unit3 are undefined (and masked) where the vectors are parallel
+        result = Matrix3(array, Qube.or_(unit1._mask_, vector2._mask_,
+                                         unit2._mask_, unit3._mask_))
 
         # Fill in derivatives if necessary
         if recursive and (unit1._derivs_ or vector2._derivs_):
